@@ -116,15 +116,15 @@ theorem del_term {seq flight : List (Nat × Nat)} {dead : List Nat} {H : List GE
 
 /-! ### the bundle and the strengthened step -/
 
-structure QInv (s : BrSt) (σ : C09St) (H : List GE) : Prop where
+structure QInv09 (s : BrSt) (σ : C09St) (H : List GE) : Prop where
   dd : σ.dead = s.dead
   sc : SubConv s.subs H
   dl : DelInv σ.seq s.flight s.dead H
 
-/-- `c09_step` again, with the new handling order made explicit enough to carry `QInv` along -/
+/-- `c09_step` again, with the new handling order made explicit enough to carry `QInv09` along -/
 theorem c09q_step {s s' : BrSt} {σ : C09St} {W W' : List Nat} {H Q : List GE} {l : BLabel}
-    (hi : C09Inv s σ W H Q) (hq : QInv s σ H) (hs : bstep s l = some s') (hw : wfC09.step W l = some W') :
-    ∃ H' Q', C09Inv s' (next09 σ l) W' H' Q' ∧ QInv s' (next09 σ l) H' := by
+    (hi : C09Inv s σ W H Q) (hq : QInv09 s σ H) (hs : bstep s l = some s') (hw : wfC09.step W l = some W') :
+    ∃ H' Q', C09Inv s' (next09 σ l) W' H' Q' ∧ QInv09 s' (next09 σ l) H' := by
   cases l with
   | bbegin o it =>
     refine ⟨H, Q, ?_, ?_⟩
@@ -277,14 +277,14 @@ theorem c09q_step {s s' : BrSt} {σ : C09St} {W W' : List Nat} {H Q : List GE} {
     show c :: σ.dead = c :: s.dead
     rw [hq.dd]
 
-theorem c09q_init : QInv BrSt.init monC09.init [] := by
+theorem c09q_init : QInv09 BrSt.init monC09.init [] := by
   refine ⟨rfl, ?_, ?_⟩
   · intro c i e hi; simp at hi
   · intro j e m c hj; simp at hj
 
 theorem c09q_run : ∀ (ls : List BLabel) (s s' : BrSt) (σ : C09St) (W W' : List Nat) (H Q : List GE),
-    C09Inv s σ W H Q → QInv s σ H → brun s ls = some s' → wfC09.run W ls = some W' →
-      ∃ σ' H' Q', monC09.run σ ls = some σ' ∧ C09Inv s' σ' W' H' Q' ∧ QInv s' σ' H'
+    C09Inv s σ W H Q → QInv09 s σ H → brun s ls = some s' → wfC09.run W ls = some W' →
+      ∃ σ' H' Q', monC09.run σ ls = some σ' ∧ C09Inv s' σ' W' H' Q' ∧ QInv09 s' σ' H'
   | [], s, s', σ, W, W', H, Q, hi, hq, hr, hw => by
     simp [brun] at hr; simp [BMon.run] at hw; subst hr; subst hw
     exact ⟨σ, H, Q, rfl, hi, hq⟩
@@ -313,7 +313,7 @@ theorem c09q_run : ∀ (ls : List BLabel) (s s' : BrSt) (σ : C09St) (W W' : Lis
     a publication whose publish returned has been taken up by every live `c` with a subscribe definitely
     before the publish such that every unsubscribe of `c` is definitely before that subscribe or definitely
     after the publish. -/
-theorem c09q_core {s : BrSt} {σ : C09St} {W : List Nat} {H : List GE} (hi : C09Inv s σ W H []) (hq : QInv s σ H)
+theorem c09q_core {s : BrSt} {σ : C09St} {W : List Nat} {H : List GE} (hi : C09Inv s σ W H []) (hq : QInv09 s σ H)
     (hf : s.flight = []) {P S : Op9} {c m r : Nat} (hP : P ∈ σ.ops) (hPit : P.it = .pub m)
     (hPr : P.tr = some r) (hd : c ∉ σ.dead) (hS : S ∈ σ.ops) (hSit : S.it = .sub c)
     (hSP : defBefore S P = true)
